@@ -213,6 +213,24 @@ def main():
         V.count(evaluations=nfw * len(xs), nontrivial=nfw * len(xs) // 2, traces=nfw)
         V.notes[f'fw_columns_{label}'] = nfw
 
+    # ---- (3b) formulas that depend on the whole column (max, mean, std, order): long columns, repeated values, block-wise ranges
+    wj = [{'op': 'transform_whole_column', 'rows': 20000, 'seed': seed * 3 + 1, 'presets': 'default'},
+          {'op': 'transform_whole_column', 'rows': 20000 if tier == 'quick' else 40000, 'seed': seed * 3 + 2, 'presets': 'minimal,extended'}]
+    if tier != 'quick':
+        wj.append({'op': 'transform_whole_column', 'rows': 20000, 'seed': seed * 3 + 3, 'presets': 'verbose,extended_rounded'})
+    for job, r_ in zip(wj, PC.pipe_eval(wj, modules=['sketch_ops'])):
+        key = f'whole-column:presets={job["presets"]} rows={job["rows"]} seed={job["seed"]}'
+        if not r_ or 'ok' not in r_:
+            V.violation('raises:' + key, f'construct_new_features failed on a long column: {PC.failure_text(r_)}', job)
+            continue
+        ob = r_['ok']
+        if ob['checked'] < 4:
+            raise E.MachineryError(f'{key}: only {ob["checked"]} formulas evaluated (vacuous)')
+        for b_ in ob['bad'][:3]:
+            V.violation(f'{key} column={b_["column"]}', b_['why'], job)
+        V.count(evaluations=ob['checked'], nontrivial=ob['checked'], traces=1)
+        V.notes['whole_column_' + job['presets']] = {'formulas': ob['checked'], 'emitted': ob['emitted']}
+
     # ---- (4) named formulas of minimal / default on adversarial inputs
     grids = [['-3', '-1', '0', '', '1', '2', '7', '100', '1e300', '0.5', '-0.25', '12', '3', '"4"'],
              ['0', '0', '1', '5', '9', '', '2', '1e-300', '30', '-7', '8', '64']]
